@@ -86,10 +86,95 @@ theorem wrap_fits (arts : List Text) (w : Nat) (t : Text) :
       | cons q qs => simp at h1
   · exact segAux_fits w [] (tokens arts t) (by simp) s (by simpa using hs)
 
+/-- Shape of the tokens built by the article-gluing loop from the parts of a text: a (possibly
+empty) list `body` of tokens each of which is either one part that is not an article, or an
+article, further articles / empty parts and then a non-empty non-article word joined by single
+spaces; followed by a trailing run `trail` of bare articles / empty parts (the `pending` list
+left over when no word follows). -/
+theorem tokens_shape (arts : List Text) (parts : List Text) :
+    ∃ body trail, tokensAux arts [] parts = body ++ trail
+      ∧ (∀ tok ∈ body,
+          (tok ∈ parts ∧ tok ∉ arts)
+          ∨ ∃ q qs p, tok = joinSp (q :: qs ++ [p]) ∧ q ∈ arts ∧ (∀ x ∈ qs, x ∈ arts ∨ x = [])
+              ∧ p ∉ arts ∧ p ≠ [] ∧ ∀ x ∈ q :: qs ++ [p], x ∈ parts)
+      ∧ (∀ tok ∈ trail, (tok ∈ arts ∨ tok = []) ∧ tok ∈ parts) :=
+  tokensAux_shape_aux arts (fun x => x ∈ parts) parts [] (Or.inl rfl) (by simp) (fun _ hx => hx)
+
+/-- The article rule, full strength (every text, width and article list): if a segment's last
+word (last non-empty piece between spaces) is an article, then no word other than articles
+follows in any later segment. -/
+theorem no_dangling_article (arts : List Text) (w : Nat) (t : Text) (pre post : List Text) (s a : Text)
+    (h : wrap arts w t = pre ++ s :: post)
+    (hlast : ((splitSp s).filter (fun p => p ≠ [])).getLast? = some a) (ha : a ∈ arts) :
+    ∀ x ∈ post, ∀ p ∈ splitSp x, p ≠ [] → p ∈ arts := by
+  unfold wrap at h
+  simp only at h
+  split at h
+  · cases pre with
+    | nil =>
+      simp only [List.nil_append, List.cons.injEq] at h
+      intro x hx; rw [← h.2] at hx; simp at hx
+    | cons b pre => simp at h
+  · obtain ⟨T0, T1, T2, he, hs, hpost⟩ :=
+      segAux_split w 0 [] (tokens arts t) pre post s (by simpa using h)
+    simp only [List.nil_append] at he
+    obtain ⟨body, trail, hbt, hbody, htrail⟩ :=
+      tokensAux_shape_aux arts (fun x => x ∈ splitSp t) (splitSp t) [] (Or.inl rfl) (by simp)
+        (fun _ hx => hx)
+    have hP : ∀ x, x ∈ splitSp t → 32 ∉ x := splitSp_no_sp t
+    have hsp : SpacedButLast (T0 ++ T1 ++ T2) := by
+      rw [← he]; exact spacedButLast_addSpaces _
+    have hmap : (T0 ++ T1).map words ++ T2.map words = body.map words ++ trail.map words := by
+      rw [← List.map_append, ← he, tokens, map_words_addSpaces, hbt, List.map_append]
+    have hs1 : SpacedButLast T1 := hsp.infix
+    have hws : words s = (T1.map words).flatten := by rw [hs, words_flatten T1 hs1]
+    have hT2 : ∀ tok ∈ T2, ∀ p ∈ words tok, p ∈ arts := by
+      rw [List.append_eq_append_iff] at hmap
+      rcases hmap with ⟨a', h1, _⟩ | ⟨c', _, h2⟩
+      · exfalso
+        have hno : NoArtLast arts (T1.map words).flatten := by
+          apply NoArtLast.flatten
+          intro ws hws'
+          have hmem : ws ∈ body.map words := by
+            rw [h1]; simp only [List.map_append, List.mem_append]; exact Or.inl (Or.inr hws')
+          obtain ⟨tok, htok, rfl⟩ := List.mem_map.1 hmem
+          rcases hbody tok htok with hw | hg
+          · exact noArtLast_word hP hw
+          · exact noArtLast_glued hP hg
+        exact hno a (hws ▸ hlast) ha
+      · intro tok htok p hp
+        have hmem : words tok ∈ trail.map words := by
+          rw [h2]; exact List.mem_append_right _ (List.mem_map.2 ⟨tok, htok, rfl⟩)
+        obtain ⟨tok', htok', he'⟩ := List.mem_map.1 hmem
+        rw [← he'] at hp
+        exact words_bare hP (htrail tok' htok') p hp
+    intro x hx p hp hpne
+    obtain ⟨l, g, r, hg, hxg⟩ := hpost x hx
+    have hsg : SpacedButLast g := by
+      have : SpacedButLast ((T0 ++ T1 ++ l) ++ g ++ r) := by
+        rw [hg] at hsp; simpa [List.append_assoc] using hsp
+      exact this.infix
+    have hpw : p ∈ words x := mem_words.2 ⟨hp, hpne⟩
+    rw [hxg, words_flatten g hsg] at hpw
+    simp only [List.mem_flatten, List.mem_map] at hpw
+    obtain ⟨ws, ⟨tok, htok, rfl⟩, hpws⟩ := hpw
+    exact hT2 tok (by rw [hg]; simp [htok]) p hpws
+
 /-- Non-vacuity / concrete instances (the Gen tables are the ones of the current source). -/
 example : wrap Gen.Wrap.articles 5 (Text.ofString "x a the word")
     = [Text.ofString "x ", Text.ofString "a the word"] := by decide
 
 example : wrap Gen.Wrap.articles Gen.Wrap.defaultWidth (Text.ofString "") = [[]] := by decide
+
+/-- The hypotheses of `no_dangling_article` are met by a concrete output: the second segment of
+`wrap "x a the" 2` ends with the article "a", and only the article "the" follows. -/
+example : wrap Gen.Wrap.articles 2 (Text.ofString "x a the")
+      = [Text.ofString "x "] ++ Text.ofString "a " :: [Text.ofString "the"]
+    ∧ ((splitSp (Text.ofString "a ")).filter (fun p => p ≠ [])).getLast? = some (Text.ofString "a")
+    ∧ Text.ofString "a" ∈ Gen.Wrap.articles := by decide
+
+/-- The second corpus witness of the repaired defect (article followed by a double space). -/
+example : wrap Gen.Wrap.articles 6 (Text.ofString "the  word abcdef")
+    = [[], Text.ofString "the  word ", Text.ofString "abcdef"] := by decide
 
 end AasVerif.Props.C27
